@@ -107,6 +107,9 @@ def run_e2e(case, fail):
             adj["trusted_proxy_count"] = case["count"]
     peer = case["peer"]
     addr = (peer, 5555) if ":" not in peer else (peer, 5555, 0, 0)
+    if case.get("unix") and case.get("unix_peer_name") is not None:
+        # accept() on a unix socket reports the path the *client* bound its end to (a name the client chooses; '' when it did not bind)
+        addr = case["unix_peer_name"]
     envs = []
     for with_h in (True, False):
         lines = "".join("%s: %s\r\n" % (P.HDR[k], v) for k, v in hdrs.items()) if with_h else ""
@@ -170,6 +173,12 @@ def e2e_cases():
             yield {"peer": peer, "trusted": trusted, "tph": ["x-forwarded-for", "x-forwarded-host", "x-forwarded-proto", "x-forwarded-port"] if trusted else [],
                    "count": None, "clear": clear, "e2e": True,
                    "hdrs": {"x-forwarded-proto": "https", "x-forwarded-for": "6.6.6.6:99", "x-forwarded-host": "evil.example:8443", "x-forwarded-port": "1"}}
+    # a unix-socket client that bound its own end to a name of its choosing - e.g. one that reads like the trusted proxy's address
+    for name in ("", "10.0.0.1", "./10.0.0.1", "192.168.1.1", "\x00abstract", "/tmp/c.sock"):
+        for trusted in ("10.0.0.1", "192.168.1.1", "./10.0.0.1"):
+            yield {"peer": "localhost", "trusted": trusted, "tph": ["x-forwarded-for", "x-forwarded-host", "x-forwarded-proto"], "count": None, "clear": True, "e2e": True,
+                   "unix": True, "unix_peer_name": name,
+                   "hdrs": {"x-forwarded-proto": "https", "x-forwarded-for": "6.6.6.6", "x-forwarded-host": "evil.example:8443"}}
     # a unix-socket peer is 'localhost'
     yield {"peer": "localhost", "trusted": "127.0.0.1", "tph": ["forwarded"], "count": None, "clear": True, "e2e": True, "unix": True,
            "hdrs": {"forwarded": "for=6.6.6.6;host=evil.example;proto=https"}}
